@@ -148,7 +148,7 @@ theorem stepOp_rel {T : Tun} (hT : TunOK T) (F : SecFns ρ) (st : Store ρ) (m :
   cases op with
   | new id k hra =>
     simp only [stepOp, specStep]
-    exact ⟨ALRel_set h id ⟨new_SInv hT F k hra, by simp [Sketch.new, Sketch.grow], by simp [Sketch.new, Sketch.grow, entered0, entered0L, Compactor.mk']⟩, by first | rfl | trivial⟩
+    exact ⟨ALRel_set h id ⟨new_SInv hT F k hra acc.peek, (new_compactors T F k hra acc.peek).2.2.2.2.1, by simp [entered0, entered0L, (new_compactors T F k hra acc.peek).1, (mkC_fields T F hra 0 (effectiveK T k) acc.peek).2.1]⟩, drawIf_throws acc _ _⟩
   | upd id x =>
     simp only [stepOp, specStep]
     rcases ALRel_get h id with ⟨h1, h2⟩ | ⟨a, b, h1, h2, hab⟩
